@@ -86,6 +86,8 @@ func init() {
 			a.liveSessionUntouched("W.live-keys")
 			a.c11SSID("W.ssid")
 			a.sentRevealSigWriters("W.highlight")
+			a.theirKeyAtomic("A.their-key")
+			a.noSessionKeyCache("S.rotation")
 			// what a public key is reported as (fingerprint) and whether a signature verifies under it depend on the
 			// key alone: nothing on those paths writes memory shared between keys or conversations (a cache, say)
 			pure := map[*ssa.Function]bool{}
